@@ -810,6 +810,64 @@ Proof.
   - rewrite HF, E1, E2. by apply spec_balance_is_mature_sum.
 Qed.
 
+(** * The same from the production entry point
+
+    A wallet restored from seed, started through syncWithChain without a
+    stored birthday block (the search returns the block at height [b] on the
+    chain as it is at the first start, [c0] blocks long), and started again at
+    the heights [cuts]: the balance the store reports is the ledger balance of
+    the blocks AFTER the located birthday block - heights b+1 .. tip, each
+    scanned once ([blocks_after b chain]). *)
+Theorem first_sync_balance_is_ledger_balance
+    (invalid_child : scope → bool → index → bool) (inv_bound : N)
+    (Hbound : ∀ s b i, invalid_child s b i = true → (i < inv_bound)%N)
+    (scopes : list scope) (Hscopes : List.NoDup scopes)
+    (W : N) (bs : nat) (ts : list Z) (birthday : Z) (chain : list block)
+    (c0 : N) (cuts : list N) (hz : Z) (cb : N → bool) :
+  locate_birthday (firstn (S (N.to_nat c0)) ts) birthday = Some hz →
+  let b := Z.to_N hz in
+  let all := blocks_after b chain in
+  within_window invalid_child scopes W all →
+  chain_txs_wf cb (txs_of all) →
+  (∀ c, In c (c0 :: cuts) → (c <= N.of_nat (length chain))%N) →
+  In (N.of_nat (length chain)) (c0 :: cuts) →
+  ∃ p, startups invalid_child inv_bound scopes W bs ts birthday (c0 :: cuts) chain fresh_wstate =
+         Some {| w_bblock := Some b; w_p := p |} ∧
+    let U := universe_of cb (txs_of all) in
+    let H := history_of (p_txs p) in
+    let tip := Z.of_nat (length chain) in
+    wf_universe U = true ∧ chain_consistent U H = true ∧
+    balance U (st (run U H)) 1 tip (clock (run U H)) =
+      spec_balance U (fs (spec_run U H)) 1 tip (clock (run U H)) ∧
+    spec_balance U (fs (spec_run U H)) 1 tip (clock (run U H)) = mature_sum cb (p_txs p) tip (p_unspent p).
+Proof.
+  intros Hloc b all Hw Hcw Hc Hlast.
+  assert (Eall : all = scanned_chain (b + 1) chain) by (symmetry; apply (scanned_after invalid_child inv_bound Hbound)).
+  destruct (startups_complete invalid_child inv_bound Hbound scopes Hscopes W bs ts birthday chain c0 cuts hz
+              Hloc Hw (chain_txs_wf_chain_wf cb all Hcw) Hc Hlast) as (p & Est & _ & _ & Hled & _).
+  change (Z.to_N hz) with b in Est, Hled. change (blocks_after b chain) with all in Hled.
+  exists p. split; [exact Est|].
+  intros U H tip.
+  assert (Hwf : ledger_wf cb (txs_of all)).
+  { rewrite Eall. apply ledger_wf_scanned. rewrite <-Eall. exact Hcw. }
+  assert (E1 : p_txs p = (ledger (txs_of all)).1) by (by rewrite <-Hled).
+  assert (E2 : p_unspent p = (ledger (txs_of all)).2) by (by rewrite <-Hled).
+  assert (HU : wf_universe U = true) by (by apply universe_wf).
+  assert (HC : chain_consistent U H = true) by (unfold H; rewrite E1; by apply history_consistent).
+  assert (Hnd : NoDup (p_txs p).*2).
+  { rewrite E1. apply sorted_lt_NoDup. apply (ro_ids (txs_of all)). by apply (ledger_rec_ok cb). }
+  assert (HF : fs (spec_run U H) = facts_of (p_txs p)) by (by apply spec_run_facts).
+  assert (Htip : ∀ x, x ∈ txs_of all → Z.of_N x.1 <= tip).
+  { intros x Hx. destruct (scanned_chain_heights (b + 1) chain) as [_ Hh]. rewrite <-Eall in Hh.
+    specialize (Hh x Hx). unfold tip. lia. }
+  split; [done|]. split; [done|]. split.
+  - destruct (c01_holds U H H HU HC) as [Hbal _]; [done|]. apply Hbal; [lia|].
+    intros t hh bb Hcf. rewrite HF in Hcf. apply facts_conf_lookup in Hcf as (d & Hd & _ & E). inversion E; subst.
+    rewrite E1 in Hd. destruct (ro_in (txs_of all) _ (ledger_rec_ok cb _ Hwf) d Hd) as (x & Hx & <- & _).
+    by apply Htip.
+  - rewrite HF, E1, E2. by apply spec_balance_is_mature_sum.
+Qed.
+
 (** for users that do not import std++ *)
 Lemma NoDup_iff_ListNoDup {A} (l : list A) : NoDup l ↔ List.NoDup l.
 Proof. apply NoDup_ListNoDup. Qed.
